@@ -14,14 +14,14 @@ impl World {
     // ------------------------------------------------------------------------------ single shot (C14)
 
     #[allow(clippy::too_many_arguments)]
-    pub fn ev_single_shot_seal(&mut self, c: usize, cfg: &Cfg, kr: usize, ks: Option<usize>, script: &[u8], pt: &[u8], aad: &[u8], inplace: bool, cov: &mut Cov) -> V {
+    pub fn ev_single_shot_seal(&mut self, c: usize, cfg: &Cfg, kr: usize, ks: Option<usize>, ks_pub: Option<usize>, script: &[u8], pt: &[u8], aad: &[u8], inplace: bool, cov: &mut Cov) -> V {
         let kem = cfg.suite.kem;
         let su = suite(cfg.suite);
         let pk_r = match self.keys.get(kr).and_then(|x| x.as_ref()) {
             Some(k) if k.kem == kem => k.pk.clone(),
             _ => return Ok(()),
         };
-        let (sk_s, pk_s) = if cfg.mode.has_auth() {
+        let (sk_s, mut pk_s) = if cfg.mode.has_auth() {
             match ks.and_then(|i| self.keys.get(i)).and_then(|x| x.as_ref()) {
                 Some(k) if k.kem == kem => (k.sk.clone(), k.pk.clone()),
                 _ => return Ok(()),
@@ -29,6 +29,13 @@ impl World {
         } else {
             (vec![], vec![])
         };
+        if cfg.mode.has_auth() {
+            if let Some(kp) = ks_pub.and_then(|i| self.keys.get(i)).and_then(|x| x.as_ref()) {
+                if kp.kem == kem {
+                    pk_s = kp.pk.clone();
+                }
+            }
+        }
         let mode = ModeS { kind: Some(cfg.mode), psk: cfg.psk.0.clone(), psk_id: cfg.psk_id.0.clone(), sk_s, pk_s };
         let mut rng = ScriptRng::new(script);
         // A: the single-shot form
@@ -62,7 +69,7 @@ impl World {
             }
         }
         // ... then through the world, which also registers context c and its one record
-        self.ev_setup_s(c, cfg, kr, ks, None, script, false, cov)?;
+        self.ev_setup_s(c, cfg, kr, ks, ks_pub, script, false, cov)?;
         let have_ctx = self.scs.get(c).and_then(|x| x.as_ref()).map(|s| s.real.is_some()).unwrap_or(false);
         if !cfg.suite.aead.seals() {
             return match a {
@@ -487,7 +494,7 @@ impl World {
             Ev::ExportCmp { s, r, ctx, len } => self.ev_export_cmp(*s, *r, ctx, *len, cov),
             Ev::Jump { c, role, to } => self.ev_jump(*c, *role, *to, cov),
             Ev::Teardown { c, role } => self.ev_teardown(*c, *role, cov),
-            Ev::SingleShotSeal { c, cfg, kr, ks, rng, pt, aad, inplace } => self.ev_single_shot_seal(*c, cfg, *kr, *ks, rng, pt, aad, *inplace, cov),
+            Ev::SingleShotSeal { c, cfg, kr, ks, ks_pub, rng, pt, aad, inplace } => self.ev_single_shot_seal(*c, cfg, *kr, *ks, *ks_pub, rng, pt, aad, *inplace, cov),
             Ev::DeriveProbe { kem, ikm } => self.ev_derive_probe(*kem, ikm, cov),
             Ev::GenProbe { kem, rng } => self.ev_gen_probe(*kem, rng, cov),
             Ev::KemProbe { kem, kr, ks, rng } => self.ev_kem_probe(*kem, *kr, *ks, rng, cov),
